@@ -65,6 +65,16 @@ def run(chk, repo):
     c01.r2_algebra(chk, repo, _d)
     c19.start(chk, repo)
     c19.widths(chk, repo)
+    c19.descs(chk, repo)
+    chk.doc("R19.3", "offset and format resolution of the terminal "
+                     "variables the motor reads and writes (shared with "
+                     "C19)")
+    from . import c18, c21
+    chk.doc("R18.6", "allocation decoded independently (shared with C18)")
+    c18.allocation_semantic(chk, repo)
+    chk.doc("R21.2", "activation prelude leaves the output data alone "
+                     "(shared with C21)")
+    c21.activation(chk, repo)
     chk.doc("R26.1", "clamp facts along the DSL program")
     chk.doc("R26.2", "signed 64-bit temporary; signed velocity outputs")
     sym = M + ".program"
